@@ -77,9 +77,7 @@ func (fr *Frame) lockInvs(st *State, mu string, pos token.Pos, release bool) {
 	for i, li := range top.ct.LockInvs {
 		sc := top.scope(st, top.entry)
 		sc.localFrame = fr
-		if fr == top {
-			sc.at = fr.curSite
-		}
+		sc.at = top.curSite
 		nm := li.Clause.Name
 		if nm == "" {
 			nm = fmt.Sprint(i + 1)
@@ -786,9 +784,8 @@ func (fr *Frame) callsiteSpecs(st *State, key string, callee *ssa.Function, args
 			}
 		}
 		sc.localFrame = fr
-		if fr == top {
-			sc.at = fr.curSite
-		}
+		// the program point in the function under verification: its own instruction, or its call that led here
+		sc.at = top.curSite
 		nm := cs.Clause.Name
 		if nm == "" {
 			nm = mangle(pat)
